@@ -166,6 +166,13 @@ def check_pair(ctx, src, stub, label, feats):
   ctx.check(strip(out) == strip(src), "merge-changed-more-than-annotations",
             "%s: syntax trees differ after stripping annotations\n--- source\n"
             "%s\n--- merged\n%s" % (label, src[:700], out[:900]), case)
+  # the source's own typing imports are code, not annotations: each name it
+  # imported is still imported afterwards
+  ctx.check(typing_imports(src) <= typing_imports(out),
+            "source-typing-import-removed",
+            "%s: the source imports %s from typing, the merged text only %s" % (
+                label, sorted(typing_imports(src) - typing_imports(out)),
+                sorted(typing_imports(out))), case)
   m_src = ann_map(pyast.parse(src))
   m_out = ann_map(pyast.parse(out))
   try:
@@ -188,6 +195,18 @@ def check_pair(ctx, src, stub, label, feats):
       ctx.check(want is not None and norm(want) == norm(v),
                 "inserted-annotation-not-from-stub",
                 "%s: %s got %r, the stub says %r" % (label, k, v, want), case)
+
+
+def typing_imports(src):
+  out = set()
+  for n in pyast.walk(pyast.parse(src)):
+    if isinstance(n, pyast.ImportFrom) and n.module in ("typing",
+                                                       "typing_extensions"):
+      out.update((n.module, a.name, a.asname or "") for a in n.names)
+    elif isinstance(n, pyast.Import):
+      out.update(("import", a.name, a.asname or "") for a in n.names
+                 if a.name == "typing")
+  return out
 
 
 def norm(a):
@@ -256,7 +275,10 @@ def random_stub(draw, src):
         if (isinstance(tg, pyast.Name) and tg.id not in declared and
             tg.id not in last_def and draw(st.integers(0, 9)) < 7):
           declared.add(tg.id)
-          lines.append("%s%s: %s" % (indent, tg.id, t()))
+          # with or without a value, as in `x: int = ...`
+          lines.append("%s%s: %s%s" % (indent, tg.id, t(),
+                                      " = ..." if draw(st.integers(0, 2)) == 0
+                                      else ""))
           wrote = True
     return wrote
 
@@ -289,6 +311,14 @@ def run_shard(ctx):
   def with_random_stub(draw):
     p = draw(gen_py.program(cfgs[draw(st.integers(0, 1))]))
     src = gen_py.render(p)
+    # sometimes the source has typing imports of its own that nothing uses
+    # (re-exports, leftovers)
+    extra = draw(st.sampled_from(["", "", "from typing import Any\n",
+                                  "from typing import Any, Optional\n",
+                                  "import typing\n",
+                                  "from typing import Never as _N, Union\n"]))
+    if extra and "from __future__" not in src:
+      src = extra + src
     return src, random_stub(draw, src), p["features"]
 
   hyp_run(ctx, with_random_stub(),
@@ -300,6 +330,16 @@ def run_shard(ctx):
 
 
 FIXED = [
+    # stub declarations that carry a value
+    ("import attr\nowner = attr.ib(default=None)\nclass R:\n  f = make()\n"
+     "  g = 1\n",
+     "from typing import Any, Never\nowner: Any = ...\nclass R:\n"
+     "  f: Any = ...\n  g: Never = ...\n"),
+    # the source's own, unused typing imports
+    ("from typing import Any, Optional\nimport typing\n\ndef f(a):\n  return a\n"
+     "x = f(1)\n",
+     "from typing import Any, Optional\ndef f(a: Optional[int]) -> Any: ...\n"
+     "x: int\n"),
     # the source already carries bare Any / Never annotations
     ("from typing import Any, Never\ndef load(path) -> Any:\n  return path\n"
      "def stop() -> Never:\n  raise SystemExit\nx: Any = load(1)\n"
